@@ -21,6 +21,16 @@ CHECKS = {
   "note": COMMON_NOTE + "Modelled not verified: Go channels/select/sync.Map and FIFO wake-up of parked senders; the theorems are about "
           "one-call-at-a-time histories with parked calls; real interleavings inside a call are only sampled by the stress runs.",
  },
+ "C11": {
+  "text": "Theorems over the mutual Tree/Forest model for all trees: every operation the stages perform (status change of a childless "
+          "node, AddChild, RemoveChild, DedupeItems, CompleteAndCheck) preserves everything CheckConsistency demands; DedupeItems "
+          "leaves one node per URL and (for trees whose fresh nodes are leaves and whose processed nodes have distinct URLs) never "
+          "discards a URL; CompleteAndCheck returns true iff no node is pending. Status sets, rule order and the dedupe preference "
+          "are regenerated from item.go/item_dedupe.go; exhaustive small-scope (all shapes <= 4 nodes x 8^n statuses; thorough: 5 "
+          "nodes sampled) and interactive pipeline-shaped sequences run against the real package and the model.",
+  "note": COMMON_NOTE + "Modelled not verified: pointer structure as an inductive tree (parent/child symmetry by construction), unique "
+          "ids, childrenMu locking; seedVia only as a flag.",
+ },
 }
 
 _todo = "check not built yet in this session (work in progress; see DESIGN.md §4 for the planned model and theorems)"
